@@ -5,6 +5,7 @@ toolchain; it runs the REAL crate code on concrete inputs. The Python side evalu
 in high-precision decimal arithmetic on the same inputs (critical values are taken from statrs directly through the
 driver, not through the crate) and compares. Only a reproduced deviation becomes a VIOLATION.
 """
+import math
 import json, os, re, struct, shutil
 from decimal import Decimal, getcontext
 from fractions import Fraction
@@ -246,7 +247,27 @@ def replay_wrapper(ctx, which, kind, model=None):
     for scale in (1.0, 1e17, 1e-300):
         tr = [math.log(x * scale) for x in data] if which == 'geometric' else [1.0 / (x * scale) for x in data]
         states.append((sum(tr), 0.0, sum(x * x for x in tr), 0.0, len(tr)))
+    # (a) data route: power-of-two scalings of positive data must still be accepted, and the point estimate lies in the interval
+    ok_, path_, note_ = replay_point_estimate(ctx, 'C05_%s_data_route' % which, [which])
+    if ok_:
+        return ok_, path_, note_
+    # (b) statistics of a state holding more than 2^31 observations (counts are usize)
+    big = 3 * 2 ** 30
+    m0, v0 = (1.25, 0.04)
+    st_big = (m0 * big, 0.0, (v0 + m0 * m0) * big, 0.0, big)
+    out = drv.run(['%s_stats f64 %s %s %s %s %d' % (which, bits(st_big[0]), bits(st_big[1]), bits(st_big[2]), bits(st_big[3]), big)])[0].split()
+    if len(out) == 2 and out[0].startswith('0x'):
+        gm, gs = unbits(out[0]), unbits(out[1])
+        sd_ = math.sqrt(v0 * big / (big - 1)) / math.sqrt(big)
+        want_m = math.exp(m0) if which == 'geometric' else 1.0 / m0
+        want_s = want_m * sd_ if which == 'geometric' else want_m * want_m * sd_
+        if not (close(gm, want_m, want_m, 1e-9) and close(gs, want_s, want_s, 1e-6)):
+            path = save(ctx, 'C05_%s_stats_large_count' % which, {'property': ctx.pid, 'command': '%s_stats on a state with %d observations' % (which, big), 'native': [gm, gs], 'reference': [want_m, want_s],
+                                                                 'deviation': 'sample_mean / sample_sem of a state with more than 2^31 observations'})
+            return True, path, 'large-count statistics %r vs %r' % ([gm, gs], [want_m, want_s])
     for (s, sc, q, qc, n) in states:
+        if not all(math.isfinite(v) for v in (s, sc, q, qc)):
+            continue
         for k, L in [(kind, 0.9), (kind, 0.6), (0, 0.9), (1, 0.9), (2, 0.9), (0, 0.6)]:
             cmd = '%s_ci_mean f64 %s %s %s %s %d %d %s' % (which, bits(s), bits(sc), bits(q), bits(qc), n, k, bits(L))
             got = parse_result(drv.run([cmd])[0])
@@ -638,3 +659,70 @@ def replay_quantile_ranks(ctx, what):
                                                 'deviation': 'ranks out of range / not min(floor(p*n), n-1) of the native Wilson bounds'})
                         return True, path, '%s -> %s (reference %s)' % (cmd, got, ref)
     return False, None, 'Stats::index / Stats::ci ranks follow the formula and stay in range on the battery (n up to usize::MAX)'
+
+
+def replay_point_estimate(ctx, what, which=('arith', 'harmonic', 'geometric')):
+    """C10 / C05 / C16 at the data level: the one-shot interval contains the point estimate of the same data (two-sided, and one-sided at
+    levels >= 1/2) - in particular for constant samples, whose interval is degenerate - and positive data scaled by a power of two is
+    still accepted with bounds scaled accordingly (up to rounding)."""
+    drv = Driver.get(ctx)
+    consts = [[15.8] * 3, [25.5] * 3, [0.1] * 7, [3.3] * 5, [1e-3] * 6, [7.0] * 4]
+    varied = [[10.6, 6.6, 26.7, 0.4, 5.7, 0.3, 1.1, 5.0, 8.4, 1.4], [2.0, 2.5, 3.0, 2.25]]
+    for w in which:
+        for data in consts + varied:
+            for kind, L in ((0, 0.95), (1, 0.9), (2, 0.9), (0, 0.5)):
+                cmd = 'point_in_ci %s %d %s %s' % (w, kind, bits(L), ' '.join(bits(x) for x in data))
+                out = drv.run([cmd])[0]
+                if ' mean ' not in out:
+                    continue
+                res, mean_s = out.split(' mean ')
+                got = parse_result(res)
+                if got[0] != 'ok' or not mean_s.startswith('0x'):
+                    continue            # an error is a legitimate outcome here (numerically negative variance of a constant sample, reciprocal-space bound <= 0)
+                mu = unbits(mean_s)
+                lo = got[2][0] if got[1] in ('two', 'upper') else float('-inf')
+                hi = got[2][-1] if got[1] in ('two', 'lower') else float('inf')
+                if not (lo <= mu <= hi):
+                    path = save(ctx, what, {'property': ctx.pid, 'what': what, 'command': cmd, 'native': out, 'point_estimate': mu, 'deviation': 'the interval does not contain the reported point estimate'})
+                    return True, path, '%s: mean %r outside [%r, %r]' % (cmd, mu, lo, hi)
+        if w in ('harmonic', 'geometric'):
+            data = [2.0, 2.5, 3.0, 2.25, 2.75, 2.125]
+            base = parse_result(drv.run(['%s_ci f64 0 %s %s' % (w, bits(0.9), ' '.join(bits(x) for x in data))])[0])
+            if base[0] != 'ok':
+                continue
+            for e in (-60, 60, -200, -53, -25):
+                sc = 2.0 ** e
+                cmd = '%s_ci f64 0 %s %s' % (w, bits(0.9), ' '.join(bits(x * sc) for x in data))
+                got = parse_result(drv.run([cmd])[0])
+                bad = got[0] != 'ok' or not all(close(g, b * sc, b * sc, 1e-9) for g, b in zip(got[2], base[2]))
+                if bad:
+                    path = save(ctx, what, {'property': ctx.pid, 'what': what, 'command': cmd, 'native': got, 'unscaled': base, 'scale': '2^%d' % e,
+                                            'deviation': 'data scaled by a power of two: the interval is not the scaled interval (or the data is rejected)'})
+                    return True, path, '%s -> %s' % (cmd, got)
+    return False, None, 'intervals contain the point estimate and scale with powers of two on the battery'
+
+
+def replay_arith_mirror(ctx, model, what):
+    """negating the data mirrors the arithmetic interval EXACTLY (bit for bit) and exchanges upper/lower one-sidedness - including levels
+    below 1/2, where 1 - L is not exact"""
+    drv = Driver.get(ctx)
+    datasets = [[3.0, 1.0, 4.0, 1.0, 5.0, 9.0, 2.0, 6.0], [10.6, 6.6, 26.7, 0.4, 5.7, 0.3, 1.1], [0.1, 0.2, 0.30000000000000004, 0.4]]
+    for d in datasets:
+        for kind in (0, 1, 2):
+            for L in (0.05, 0.1, 0.15, 0.2, 0.3, 0.45, 0.6, 0.9, 0.95, model_float(model, 'L', 0.8)):
+                if not (0 < L < 1):
+                    continue
+                mk = {0: 0, 1: 2, 2: 1}[kind]
+                c1 = 'arith_ci f64 %d %s %s' % (kind, bits(L), ' '.join(bits(x) for x in d))
+                c2 = 'arith_ci f64 %d %s %s' % (mk, bits(L), ' '.join(bits(-x) for x in d))
+                a, b = parse_result(drv.run([c1])[0]), parse_result(drv.run([c2])[0])
+                if a[0] != 'ok' or b[0] != 'ok':
+                    if a[0] != b[0]:
+                        path = save(ctx, what, {'property': ctx.pid, 'what': what, 'commands': [c1, c2], 'native': [a, b], 'deviation': 'outcome changes under negation'})
+                        return True, path, 'outcome %s vs %s' % (a, b)
+                    continue
+                want = [-x for x in reversed(a[2])]
+                if list(b[2]) != want or {'two': 'two', 'upper': 'lower', 'lower': 'upper'}[a[1]] != b[1]:
+                    path = save(ctx, what, {'property': ctx.pid, 'what': what, 'commands': [c1, c2], 'native': [a, b], 'deviation': 'CI(-data) is not the exact mirror image of CI(data)'})
+                    return True, path, '%s vs %s' % (a, b)
+    return False, None, 'negation mirrors the interval bit for bit on the battery'
